@@ -60,6 +60,11 @@ def _xml(name: str, version='1.3') -> Path:
                                       '         <Extends id="a" version="1"/>',
                                       '    -->']
                 break
+        # lexicon ab writes a character of its version as a character reference with upper-case
+        # hexadecimal digits: the scan and the parser must read the same version
+        for k, ln in enumerate(lines):
+            if ln.lstrip().startswith('<Lexicon id="ab"'):
+                lines[k] = ln.replace('version="1.0+b"', 'version="1&#x2E;0+b"')
         p.write_text('\n'.join(lines), encoding='utf-8')
     return p
 
